@@ -9,6 +9,7 @@ from __future__ import annotations
 import itertools
 import os
 import random
+import re
 
 from .. import trees
 from ..monitors import HUB
@@ -28,7 +29,7 @@ LEVEL_TEXT += ' Diagrams are also saved with CRLF / CR line endings and rewritte
 RULE = (
     "an evaluation = one PumlParser.parse call judged by the monitor; non-trivial = diagram with >= 2 arrows or an alias; distinct = distinct diagram texts"
 )
-ASSUMPTIONS = ["alias identifiers never coincide with component names", "one declaration per component"]
+ASSUMPTIONS = ["an alias never coincides with the name of another component that an arrow mentions", "one declaration per component"]
 SHARD_TIMEOUT = {"quick": 900, "thorough": 3000}
 
 NAMES = ["M_A", "M_B", "M_C", "core", "util", "runtime", "services", "model", "x1", "importer", "component_registry", "components"]
@@ -79,12 +80,29 @@ def gen_spec(rnd, dotted=None):
     for c in comps:
         if decl[c][0] == "none" and c not in referenced:
             decl[c] = ("[n]", None)  # an unreferenced component must be declared to exist at all
+    by_name_only = set()
+    if rnd.random() < 0.08:
+        # an alias spelled like the name of ANOTHER component - one that is only declared and that no arrow mentions, so
+        # nothing is ambiguous; the aliased component itself is referred to by name in this diagram
+        xs = [c for c in comps if decl[c][1]]
+        ys = [c for c in comps if c not in referenced and re.fullmatch(r"\w+", c)]
+        if xs and ys:
+            x, y = rnd.choice(xs), rnd.choice(ys)
+            if x != y:
+                decl[x] = (decl[x][0], y)
+                by_name_only.add(x)
     arrow_forms = []
     for a, b in rel:
         fa = rnd.choice(rpuml.REF_FORMS)
         fb = rnd.choice(rpuml.REF_FORMS)
+        if a in by_name_only and fa == "alias":
+            fa = "[n]"
+        if b in by_name_only and fb == "alias":
+            fb = "n"
         arrow_forms.append((rnd.choice(rpuml.ARROWS), fa, fb, rnd.choice(WORDS)))
     spec = {"components": comps, "relation": rel, "decl": decl, "arrow_forms": arrow_forms}
+    if by_name_only:
+        spec["alias_named_like_an_unmentioned_component"] = True
     nlines = sum(1 for c in comps if decl[c][0] != "none") + len(rel)
     order = list(range(nlines))
     rnd.shuffle(order)
@@ -165,6 +183,8 @@ def account(spec, text, acc):
         acc.count("dependor_by_alias_and_by_name")
     if any("." in c for c in spec["components"]):
         acc.count("dotted_diagrams")
+    if spec.get("alias_named_like_an_unmentioned_component"):
+        acc.count("alias_named_like_an_unmentioned_component")
     if len(spec["relation"]) >= 2 or aliased:
         acc.nontrivial(text)
 
